@@ -123,10 +123,7 @@ func (e *env) query(mint, maxt int64) string {
 }
 
 func runCase(c *h.Ctx, ops []string) {
-	dir, err := os.MkdirTemp("", "vdb")
-	if err != nil {
-		panic(err)
-	}
+	dir := h.TempDir("vdb")
 	e := &env{dir: dir}
 	defer os.RemoveAll(dir)
 	defer e.close()
@@ -261,6 +258,7 @@ func gen(c *h.Ctx, r *h.Rng, maxOps int) []string {
 	// timestamps non-decreasing inside one transaction; histories without restarts do not.
 	withReopen := r.Chance(70)
 	txLast := map[int]int64{}
+	lastApp := map[int][2]uint64{} // newest (t, v) generated per series
 	n := 8 + r.Intn(maxOps)
 	pickT := func() int64 {
 		switch r.Intn(10) {
@@ -322,6 +320,7 @@ func gen(c *h.Ctx, r *h.Rng, maxOps int) []string {
 					txLast[si] = t
 				}
 				ops = append(ops, fmt.Sprintf("app %d %d %016x", si, t, v))
+				lastApp[si] = [2]uint64{uint64(t), v}
 			}
 			if r.Chance(60) {
 				if r.Chance(85) {
@@ -342,6 +341,17 @@ func gen(c *h.Ctx, r *h.Rng, maxOps int) []string {
 				tgt = strconv.Itoa(r.Intn(nser))
 			}
 			ops = append(ops, fmt.Sprintf("del %d %d %s", a, b, tgt))
+			// Delete the newest sample of a series and re-submit the identical sample (finding F28).
+			if r.Chance(15) && len(lastApp) > 0 {
+				si := r.Intn(nser)
+				if la, ok := lastApp[si]; ok {
+					t := int64(la[0])
+					ops = append(ops, fmt.Sprintf("del %d %d %d", t-r.Range(0, 2), t+r.Range(0, 2), si),
+						"begin", fmt.Sprintf("app %d %d %016x", si, t, la[1]), "commit",
+						fmt.Sprintf("q %d %d", t-5, t+5))
+					c.Count("gen:identical-reappend-after-delete")
+				}
+			}
 		case k < 66:
 			if inTx {
 				ops = append(ops, "commit")
